@@ -42,13 +42,20 @@ def gen_case(seed):
             cancel_at = x["at"]
     spec["externals"] = []
     faults = []
-    style = rnd.choice(["none", "none", "update_transient", "update_transient", "update_over_budget", "append_event_once"])
+    style = rnd.choice(["none", "none", "update_transient", "update_transient", "update_over_budget", "append_event_once", "spread", "spread"])
     if style == "update_transient":
         faults = [{"method": "update", "from": rnd.randint(2, 4), "count": rnd.randint(1, 2)}]
     elif style == "update_over_budget":
         faults = [{"method": "update", "from": rnd.randint(2, 4), "count": 5}]
     elif style == "append_event_once":
         faults = [{"method": "append_event", "from": rnd.randint(1, 12), "count": 1}]
+    elif style == "spread":
+        # several isolated transient faults over the server's lifetime: each one is within the per-write retry budget
+        a = rnd.randint(1, 4)
+        b = a + rnd.randint(2, 4)
+        c = b + rnd.randint(2, 4)
+        faults = [{"method": "append_event", "from": a, "count": 1}, {"method": "append_event", "from": b, "count": 1},
+                  {"method": "append_event", "from": c, "count": 1}, {"method": "update", "from": rnd.randint(2, 3), "count": 1}]
     return {"seed": seed, "spec": spec, "store": rnd.choice(["sqlite", "memory"]), "faults": faults, "fault_style": style, "cancel_at": cancel_at}
 
 
